@@ -5,18 +5,27 @@ package main
 import (
 	"crypto/hmac"
 	"crypto/sha256"
+	"crypto/x509"
 	"encoding/base64"
+	"encoding/pem"
 	"fmt"
 	"io"
 	"log"
 	"net"
 	"net/http"
+	"net/http/httptest"
 	"net/url"
+	"os"
+	"os/exec"
+	"path/filepath"
+	"strings"
+	"syscall"
 	"time"
 
 	c "github.com/buzzfeed/sso/internal/zz_verif/common"
 
 	"github.com/buzzfeed/sso/internal/auth"
+	"github.com/buzzfeed/sso/internal/auth/providers"
 	"github.com/datadog/datadog-go/statsd"
 )
 
@@ -91,6 +100,11 @@ func corpus() []corpusCase {
 		{single(worldCfg{Secure: true, Replace: true}), 0, scenario{Name: "plain-http", Class: "LSignIn"}, reqShape{Host: "app.example.test", Target: "//evil.test/%2e%2e"}},
 		{single(worldCfg{Secure: true, Replace: true}), 0, scenario{Name: "absolute-https", Class: "LRobots"}, reqShape{Host: "app.example.test", Target: "https://app.example.test/robots.txt"}},
 		{single(worldCfg{Secure: true, Replace: true}), 0, scenario{Name: "absolute-http", Class: "LRobots"}, reqShape{Host: "app.example.test", Target: "http://app.example.test/robots.txt"}},
+		// list-valued X-Forwarded-Proto: anything but the exact string "https" is a plain-http request (redirected, upstream not called)
+		{single(worldCfg{Secure: true, Replace: true}), 0, fw(script{Status: 200}), reqShape{Host: "app.example.test", Target: "/get?a=1&b=2", XFP: []string{"http, https"}}},
+		{single(worldCfg{Secure: true, Replace: false}), 0, fw(script{Status: 200}), reqShape{Host: "app.example.test", Target: "/get", XFP: []string{"http,https"}}},
+		{single(worldCfg{Secure: true, Replace: true}), 0, scenario{Name: "no-cookie", Class: "LSignIn", Cookies: []string{ckS(true), ckC(false)}}, reqShape{Method: "POST", Host: "app.example.test", Target: "/x", XFP: []string{", https"}}},
+		{single(worldCfg{Secure: true, Replace: true}), 0, fw(script{Status: 200}), reqShape{Host: "app.example.test", Target: "/get", XFP: []string{"https, http"}}},
 		// cookie attributes: domain from host with port / configured / invalid, Secure off
 		{single(worldCfg{Secure: false, Replace: true}), 0, scenario{Name: "no-cookie", Class: "LSignIn", Cookies: []string{ckS(true), ckC(false)}}, reqShape{Host: "app.example.test:8080", Target: "/x"}},
 		{single(worldCfg{Secure: true, Replace: true, CookieDomain: ".example.test"}), 0, scenario{Name: "no-cookie", Class: "LSignIn", Cookies: []string{ckS(true), ckC(false)}}, reqShape{Host: "app.example.test", Target: "/x", XFP: https}},
@@ -171,10 +185,10 @@ func authCases() []c.Case {
 	mux, err := auth.NewAuthenticatorMux(cfg, sc)
 	c.Must(err)
 	defer mux.Stop()
-	// as cmd/sso-auth/main.go: the mux behind http.TimeoutHandler
+	// handler level: the AuthenticatorMux served directly (the process composition is exercised with the real binary below)
 	ln, err := net.Listen("tcp", "127.0.0.1:0")
 	c.Must(err)
-	srv := &http.Server{Handler: http.TimeoutHandler(mux, cfg.ServerConfig.TimeoutConfig.Request, ""), ErrorLog: quietLogger()}
+	srv := &http.Server{Handler: mux, ErrorLog: quietLogger()}
 	go srv.Serve(ln)
 	defer srv.Close()
 	addr := ln.Addr().String()
@@ -203,7 +217,6 @@ func authCases() []c.Case {
 		{"redeem-bad-code", rawReq{Method: "POST", Target: "/test/redeem", Body: creds + "&code=junk"}},
 		{"redeem-no-secret", rawReq{Method: "POST", Target: "/test/redeem", Body: "client_id=proxy-client-id"}},
 		{"refresh-no-token", rawReq{Method: "POST", Target: "/test/refresh", Body: creds}},
-		{"refresh-token", rawReq{Method: "POST", Target: "/test/refresh", Body: creds + "&refresh_token=rt"}},
 		{"redeem-wrong-method", rawReq{Target: "/test/redeem"}},
 		{"unknown-route", rawReq{Target: "/test/nothing-here"}},
 	}
@@ -211,14 +224,229 @@ func authCases() []c.Case {
 	for i, e := range eps {
 		e.req.Host = "localhost"
 		o := doRaw(addr, e.req)
-		if !o.Responded {
-			// the handler panicked inside the stub TestProvider (nil fields): no response to judge
-			continue
+		out = append(out, authCase(i, e.name, o))
+	}
+	return append(out, oktaCases(len(eps))...)
+}
+
+// a missing response (handler panic, dropped connection) is judged like any other: status 0, no headers
+func authCase(i int, name string, o obsResp) c.Case {
+	h := http.Header{}
+	if o.Responded {
+		h = o.Header
+	}
+	return c.Case{
+		Coq:  fmt.Sprintf("CAuth %d %d %s", i, o.Status, coqHeader(h)),
+		JSON: map[string]interface{}{"kind": "auth", "endpoint": name, "responded": o.Responded, "status": o.Status, "headers": h},
+	}
+}
+
+const requestTimeout = 300 * time.Millisecond
+const idpDelay = 1200 * time.Millisecond
+
+// The authenticator booted through the real configuration path with a REAL provider type (Okta)
+// whose endpoints are a fake identity provider on loopback (TLS, trusted through the shim), and
+// server.timeout.request set: token endpoints that really call the provider, fast and slow.
+//   - handler level: AuthenticatorMux served directly (the handlers the property is anchored in):
+//     a provider call that outlasts server.timeout.request still ends in a response of the mux;
+//   - process level: cmd/sso-auth built from the tree under test and run as a subprocess (processCases).
+func oktaCases(base int) []c.Case {
+	idp := httptest.NewUnstartedServer(http.HandlerFunc(func(w http.ResponseWriter, r *http.Request) {
+		r.ParseForm()
+		tok := r.Form.Get("token") + r.Form.Get("refresh_token")
+		if strings.HasPrefix(tok, "slow") {
+			time.Sleep(idpDelay)
+		}
+		w.Header().Set("Content-Type", "application/json")
+		switch {
+		case strings.HasSuffix(r.URL.Path, "/introspect"):
+			fmt.Fprintf(w, `{"active": %v}`, !strings.Contains(tok, "inactive"))
+		case strings.HasSuffix(r.URL.Path, "/token"):
+			if strings.Contains(tok, "bad") {
+				w.WriteHeader(400)
+				io.WriteString(w, `{"error":"invalid_grant","error_description":"The refresh token is invalid or expired."}`)
+				return
+			}
+			io.WriteString(w, `{"access_token":"new-at","expires_in":3600}`)
+		default:
+			w.WriteHeader(404)
+		}
+	}))
+	idp.Config.ErrorLog = quietLogger()
+	idp.StartTLS()
+	defer idp.Close()
+	pool := x509.NewCertPool()
+	pool.AddCert(idp.Certificate())
+	providers.ZZVerifTrustPool(pool)
+
+	cfg := auth.Configuration{
+		ServerConfig: auth.ServerConfig{Host: "localhost", Port: 4180, Scheme: "https",
+			TimeoutConfig: auth.TimeoutConfig{Write: 30 * time.Second, Read: 30 * time.Second, Request: requestTimeout}},
+		SessionConfig: auth.SessionConfig{
+			SessionLifetimeTTL: 720 * time.Hour,
+			CookieConfig: auth.CookieConfig{Name: "_sso_auth", Secret: "zaPX2fYMyegfOwwMEaMiphwrjgxz0pxoTbxvQiK9zBY=",
+				Expire: 168 * time.Hour, Secure: true, HTTPOnly: true},
+			Key: "CrYro5Kp6CO2aBbVGoHgnh2/YQaz9cqqRYNbtTSUBDs=",
+		},
+		MetricsConfig: auth.MetricsConfig{StatsdConfig: auth.StatsdConfig{Host: "127.0.0.1", Port: 8125}},
+		ProviderConfigs: map[string]auth.ProviderConfig{
+			"okta": {ProviderType: "okta", ProviderSlug: "okta", ClientConfig: auth.ClientConfig{ID: "okta-client-id", Secret: "okta-client-secret"},
+				OktaProviderConfig: auth.OktaProviderConfig{OrgURL: strings.TrimPrefix(idp.URL, "https://"), ServerID: "default"},
+				GroupCacheConfig:   auth.GroupCacheConfig{CacheIntervalConfig: auth.CacheIntervalConfig{Provider: 10 * time.Minute, Refresh: 10 * time.Minute}}},
+		},
+		ClientConfigs: map[string]auth.ClientConfig{"proxy": {ID: "proxy-client-id", Secret: authSecret}},
+		AuthorizeConfig: auth.AuthorizeConfig{
+			ProxyConfig: auth.ProxyConfig{Domains: []string{"example.test"}},
+			EmailConfig: auth.EmailConfig{Domains: []string{"example.com"}},
+		},
+	}
+	c.Must(cfg.Validate())
+	sc, err := statsd.New("127.0.0.1:8125")
+	c.Must(err)
+	mux, err := auth.NewAuthenticatorMux(cfg, sc)
+	c.Must(err)
+	defer mux.Stop()
+
+	serve := func(h http.Handler) (string, func()) {
+		ln, err := net.Listen("tcp", "127.0.0.1:0")
+		c.Must(err)
+		srv := &http.Server{Handler: h, ErrorLog: quietLogger()}
+		go srv.Serve(ln)
+		return ln.Addr().String(), func() { srv.Close() }
+	}
+	creds := "client_id=proxy-client-id&client_secret=" + authSecret
+	good := "https://app.example.test/"
+	type ep struct {
+		name string
+		req  rawReq
+	}
+	eps := []ep{
+		{"okta-validate-active", rawReq{Target: "/okta/validate?" + creds, Extra: []line{{"X-Access-Token", "tok"}}}},
+		{"okta-validate-inactive", rawReq{Target: "/okta/validate?" + creds, Extra: []line{{"X-Access-Token", "inactive"}}}},
+		{"okta-validate-no-token", rawReq{Target: "/okta/validate?" + creds}},
+		{"okta-refresh", rawReq{Method: "POST", Target: "/okta/refresh", Body: creds + "&refresh_token=rt"}},
+		{"okta-refresh-revoked", rawReq{Method: "POST", Target: "/okta/refresh", Body: creds + "&refresh_token=bad"}},
+		{"okta-sign_in-page", rawReq{Target: "/okta/sign_in?" + signedParams(good, 0)}},
+		{"okta-start", rawReq{Target: "/okta/start?" + signedParams(good, 0)}},
+		// the provider answers only after server.timeout.request has passed
+		{"okta-validate-slow-provider", rawReq{Target: "/okta/validate?" + creds, Extra: []line{{"X-Access-Token", "slow"}}}},
+	}
+	var out []c.Case
+	addr, stop := serve(mux)
+	for i, e := range eps {
+		e.req.Host = "localhost"
+		out = append(out, authCase(base+i, e.name, doRaw(addr, e.req)))
+	}
+	stop()
+
+	// process level: the REAL binary built from the tree under test
+	out = append(out, processCases(idp, creds, good)...)
+	return out
+}
+
+
+// processCases builds cmd/sso-auth from the tree under test (cwd = $VERIF_REPO_DIR), starts it as a
+// subprocess configured only through its environment (real LoadConfig/Validate/NewAuthenticatorMux/
+// main composition), waits for /ping and drives it over real HTTP: normal requests and one whose
+// provider call outlasts SERVER_TIMEOUT_REQUEST. A binary that does not build or does not come up is a
+// broken correspondence (SetupFailed, exit 4), not harness trouble.
+func processCases(idp *httptest.Server, creds, good string) []c.Case {
+	repo := os.Getenv("VERIF_REPO_DIR")
+	if repo == "" {
+		repo = "/repo"
+	}
+	dir, err := os.MkdirTemp("/var/tmp", "verif-c18-bin")
+	c.Must(err)
+	defer os.RemoveAll(dir)
+	bin := filepath.Join(dir, "sso-auth")
+	build := exec.Command("go", "build", "-o", bin, "./cmd/sso-auth")
+	build.Dir = repo
+	build.Env = os.Environ()
+	if outp, err := build.CombinedOutput(); err != nil {
+		c.SetupFailed("cmd/sso-auth does not build: %v: %s", err, tail(string(outp), 300))
+		return nil
+	}
+	// the fake identity provider's certificate, for the child's system roots
+	pemFile := filepath.Join(dir, "idp.pem")
+	c.Must(os.WriteFile(pemFile, pem.EncodeToMemory(&pem.Block{Type: "CERTIFICATE", Bytes: idp.Certificate().Raw}), 0o600))
+	ln, err := net.Listen("tcp", "127.0.0.1:0")
+	c.Must(err)
+	port := ln.Addr().(*net.TCPAddr).Port
+	ln.Close()
+	cmd := exec.Command(bin)
+	cmd.Dir = dir
+	cmd.Env = []string{
+		"PATH=" + os.Getenv("PATH"), "SSL_CERT_FILE=" + pemFile, "SSL_CERT_DIR=" + dir,
+		"SERVER_HOST=localhost", fmt.Sprintf("SERVER_PORT=%d", port), "SERVER_TIMEOUT_REQUEST=" + requestTimeout.String(),
+		"SERVER_TIMEOUT_SHUTDOWN=1s",
+		"SESSION_KEY=CrYro5Kp6CO2aBbVGoHgnh2/YQaz9cqqRYNbtTSUBDs=", "SESSION_COOKIE_SECRET=zaPX2fYMyegfOwwMEaMiphwrjgxz0pxoTbxvQiK9zBY=",
+		"CLIENT_PROXY_ID=proxy-client-id", "CLIENT_PROXY_SECRET=" + authSecret,
+		"PROVIDER_OKTA_TYPE=okta", "PROVIDER_OKTA_SLUG=okta", "PROVIDER_OKTA_CLIENT_ID=okta-client-id", "PROVIDER_OKTA_CLIENT_SECRET=okta-client-secret",
+		"PROVIDER_OKTA_OKTA_URL=" + strings.TrimPrefix(idp.URL, "https://"), "PROVIDER_OKTA_OKTA_SERVER=default",
+		"AUTHORIZE_PROXY_DOMAINS=example.test", "AUTHORIZE_EMAIL_DOMAINS=example.com",
+		"METRICS_STATSD_HOST=127.0.0.1", "METRICS_STATSD_PORT=8125", "LOGGING_ENABLE=true",
+	}
+	cmd.Stdout, cmd.Stderr = nil, nil
+	cmd.SysProcAttr = &syscall.SysProcAttr{Pdeathsig: syscall.SIGKILL}
+	if err := cmd.Start(); err != nil {
+		c.SetupFailed("cmd/sso-auth does not start: %v", err)
+		return nil
+	}
+	defer func() { cmd.Process.Kill(); cmd.Wait() }()
+	addr := fmt.Sprintf("127.0.0.1:%d", port)
+	up := false
+	for i := 0; i < 300 && !up; i++ {
+		if conn, err := net.DialTimeout("tcp", addr, 200*time.Millisecond); err == nil {
+			conn.Close()
+			if o := doRaw(addr, rawReq{Target: "/ping", Host: "localhost"}); o.Responded && o.Status == 200 {
+				up = true
+			}
+		}
+		if !up {
+			time.Sleep(50 * time.Millisecond)
+		}
+	}
+	if !up {
+		c.SetupFailed("cmd/sso-auth built from %s did not answer /ping within 15s", repo)
+		return nil
+	}
+	type pc struct {
+		name  string
+		fired bool
+		req   rawReq
+	}
+	pcs := []pc{
+		{"validate-active", false, rawReq{Target: "/okta/validate?" + creds, Extra: []line{{"X-Access-Token", "tok"}}}},
+		{"validate-inactive", false, rawReq{Target: "/okta/validate?" + creds, Extra: []line{{"X-Access-Token", "inactive"}}}},
+		{"refresh", false, rawReq{Method: "POST", Target: "/okta/refresh", Body: creds + "&refresh_token=rt"}},
+		{"sign_in-page", false, rawReq{Target: "/okta/sign_in?" + signedParams(good, 0)}},
+		{"sign_in-no-client", false, rawReq{Target: "/okta/sign_in"}},
+		{"redeem-bad-code", false, rawReq{Method: "POST", Target: "/okta/redeem", Body: creds + "&code=junk"}},
+		{"unknown-route", false, rawReq{Target: "/okta/nothing-here"}},
+		// the provider answers after SERVER_TIMEOUT_REQUEST has passed: the process answers 503 itself
+		{"validate-slow-provider", true, rawReq{Target: "/okta/validate?" + creds, Extra: []line{{"X-Access-Token", "slow"}}}},
+		{"refresh-slow-provider", true, rawReq{Method: "POST", Target: "/okta/refresh", Body: creds + "&refresh_token=slow"}},
+	}
+	var out []c.Case
+	for _, p := range pcs {
+		p.req.Host = "localhost"
+		o := doRaw(addr, p.req)
+		h := http.Header{}
+		if o.Responded {
+			h = o.Header
 		}
 		out = append(out, c.Case{
-			Coq: fmt.Sprintf("CAuth %d %d %s", i, o.Status, coqHeader(o.Header)),
-			JSON: map[string]interface{}{"kind": "auth", "endpoint": e.name, "status": o.Status, "headers": o.Header},
+			Coq: fmt.Sprintf("CAuthProc %s %d %s", c.Bool(p.fired), o.Status, coqHeader(h)),
+			JSON: map[string]interface{}{"kind": "auth-process", "endpoint": p.name + " (real cmd/sso-auth subprocess)",
+				"provider_outlasts_request_timeout": p.fired, "responded": o.Responded, "status": o.Status, "headers": h},
 		})
 	}
 	return out
+}
+
+func tail(s string, n int) string {
+	if len(s) > n {
+		return s[len(s)-n:]
+	}
+	return s
 }
